@@ -28,17 +28,34 @@ func Registry() []*Spec {
 		AllowUnsupported: []string{"formatted (fmt) string", "(reflect.Value).", "regexp.Compile", "strconv.FormatFloat of a symbolic float"},
 		Note: "JSONPath / filter text: every byte string of <= N bytes and 37 path, filter and proc skeletons with free symbolic bytes through jp.MustParse (a panic must carry an error, never a runtime fault) and jp.Parse (never panics, agrees with MustParse); an expression that parsed is printed and evaluated with Get, First, Has, Locate on a fixed document without a panic; regular expression literals are outside (regexp is not executed)"})
 	// ---- inductive step of the validator state machine: C01 / C06 for inputs of any length
-	stepV := Spec{Name: "VerifStep_Validator", Pkg: "oj",
-		Quick: map[string]int{"L": 2}, Thorough: map[string]int{"L": 3},
-		Covers: []string{"rejected", "stepped", "accepting-end"}, UnitDepth: 3,
-		Note: "one inductive step of oj.Validator: from the canonical validator state of every reference configuration (35 automaton sub-states x container stacks of depth <= L+1, depth L+1 standing for 'or deeper' with an unconstrained bottom entry; dead fields nextMode / ri / line / noff havocked) the real validateBuffer on every chunk of <= L symbolic bytes errs iff the RFC 8259 reference rejects, never panics, ends in the canonical state of the reference's next configuration, and the end-of-input call errs iff that configuration is not complete; by induction over reads: ValidateReader on inputs of ANY length and nesting depth delivered in reads of <= L bytes"}
-	for _, pa := range []struct {
-		prop    string
-		asserts []string
-	}{{"C01", []string{"prefix-", "post-config", "step-error-iff", "step-state-canonical", "end-error-iff"}}, {"C06", []string{"step-no-panic", "end-no-panic"}}} {
-		s := stepV
-		s.Property, s.Asserts = pa.prop, pa.asserts
-		add(s)
+	for _, fe := range []string{"Validator", "Tokenizer", "Parser", "GenParser"} {
+		what := "oj.Validator.validateBuffer"
+		extra := ""
+		pkg := "oj"
+		switch fe {
+		case "GenParser":
+			pkg = "gen"
+			what, extra = "gen.Parser.parseBuffer", "; number states also from prefixes of 20+ digits (text form of the accumulators); the value stack holds the 0..1 elements of the canonical prefix"
+		case "Tokenizer":
+			what, extra = "oj.Tokenizer.tokenizeBuffer (ZeroHandler)", "; number states also from prefixes of 20+ digits (text form of the accumulators)"
+		case "Parser":
+			what, extra = "oj.Parser.parseBuffer", "; number states also from prefixes of 20+ digits (text form of the accumulators); the value stack holds the 0..1 elements of the canonical prefix"
+		}
+		stepS := Spec{Name: "VerifStep_" + fe, Pkg: pkg,
+			Quick: map[string]int{"L": 2}, Thorough: map[string]int{"L": 3},
+			Covers: []string{"rejected", "stepped", "accepting-end"}, UnitDepth: 3,
+			Note: "one inductive step of " + what + ": from the canonical state of every reference configuration (35 automaton sub-states x container stacks of depth <= L+1, depth L+1 standing for 'or deeper' with an unconstrained bottom entry where the stack is a byte stack; dead fields nextMode / ri / rn / line / noff havocked) the real per-buffer function on every chunk of <= L symbolic bytes errs iff the RFC 8259 reference rejects, never panics, ends in the canonical state of the reference's next configuration (mode, nextMode, ri, container kinds), and the end-of-input call errs iff that configuration is not complete" + extra + "; by induction over reads: the reader entry point on inputs of ANY length and nesting depth delivered in reads of <= L bytes"}
+		for _, pa := range []struct {
+			prop    string
+			asserts []string
+		}{{"C01", []string{"prefix-", "post-config", "step-error-iff", "step-state-canonical", "end-error-iff"}}, {"C06", []string{"step-no-panic", "end-no-panic"}}} {
+			s := stepS
+			s.Property, s.Asserts = pa.prop, pa.asserts
+			if pa.prop == "C06" {
+				s.Quick = map[string]int{"L": 1} // (C01's quick tier runs the same harness with L = 2)
+			}
+			add(s)
+		}
 	}
 	// ---- C03: all front-ends agree, however the input is chunked
 	add(Spec{Property: "C03", Name: "VerifC03_Chunked", Pkg: "asm",
